@@ -3,7 +3,7 @@ import re
 
 from .. import common as K
 from .. import draw_rules as D
-from ..facts import operand_local, place_fields, is_const
+from ..facts import operand_local, place_fields, is_const, const_val
 
 EXPLANATION = ("Decides only the gate structure: Drawable::Term/TermLike are built only in drawable(), every path to a "
                "construction takes a force_draw-true edge or a limiter-allowed edge (no non-forced frame reaches a terminal "
@@ -26,6 +26,7 @@ def run(ctx, crate):
     rule_paint_reads_live_state(ctx, crate)
     rule_limiter_state_private(ctx, crate)
     rule_limiter_admission(ctx, crate)
+    rule_limiter_constants(ctx, crate)
 
 
 def rule_update_before_gate(ctx, crate, rule="R-UPDATE-BEFORE-GATE"):
@@ -172,3 +173,63 @@ def rule_limiter_admission(ctx, crate, rule="R-LIMITER-ADMISSION"):
             ctx.check(not after_store, rule, "%s:refusal-pure" % K.meth(fn.replace("::allow", "")), b.name, K.fn_loc(b),
                       "a refused request leaves the bucket unchanged", "a refused request still modifies the bucket", cfg)
     ctx.floor(rule, n, 6, cfg, "admission/refusal sites")
+
+
+def rule_limiter_constants(ctx, crate, rule="R-LIMITER-CONSTANTS"):
+    """The constants the statement itself names: draw-target bucket starts full at 20 and is capped at 20, its interval
+    is 1000 ms / rate; the position bucket starts at 10, is capped at 10, and its interval is 1 ms (1_000_000 ns)."""
+    cfg = crate.config
+    n = 0
+    b = K.find_one(ctx, crate, rule, r"draw_target::RateLimiter::new")
+    if b:
+        for (cb, i, j, s) in K.constructions(crate, "draw_target::RateLimiter", bodies=[b]):
+            f = dict(zip(s["rv"]["fields"], s["rv"]["ops"]))
+            n += 1
+            ctx.check(is_const(f.get("capacity"), 20), rule, "draw:initial-burst", b.name, "%s:%d" % (b.file, s.get("line", 0)), "a new draw limiter starts with 20 tokens",
+                      "a new draw limiter does not start with 20 tokens", cfg)
+            sl = b.slice(f.get("interval"), at=i)
+            divs = [d for d in sl.defs if d["kind"] == "assign" and d["rv"]["k"] == "bin" and d["rv"]["op"] == "Div"]
+            ok = len(divs) == 1 and is_const(divs[0]["rv"]["a"], 1000) and b.slice(divs[0]["rv"]["b"], at=divs[0]["bb"]).params() == {1}
+            ctx.check(ok, rule, "draw:interval", b.name, "%s:%d" % (b.file, s.get("line", 0)), "interval = 1000 ms / refresh rate", "the refresh interval is not 1000 ms / rate", cfg)
+            prev = b.slice(f.get("prev"), at=i)
+            ctx.check(prev.has_call(r"std::time::Instant::now"), rule, "draw:prev-now", b.name, "%s:%d" % (b.file, s.get("line", 0)), "the bucket's reference time starts at now", "the bucket's reference time does not start at creation", cfg)
+    a = K.find_one(ctx, crate, rule, r"draw_target::RateLimiter::allow")
+    if a:
+        mins = a.calls(r"std::cmp::Ord::min")
+        n += 1
+        ok = bool(mins) and all(20 in {c for c in a.slice_args(m).consts() if isinstance(c, int) and not isinstance(c, bool)} for m in mins)
+        ctx.check(ok, rule, "draw:cap", a.name, K.fn_loc(a), "capacity is capped at 20", "the draw bucket's cap is not 20", cfg)
+        # a token is consumed: the stored capacity involves `- 1`
+        cons = [d for m in mins for d in a.slice_args(m).defs if d["kind"] == "assign" and d["rv"]["k"] == "bin" and d["rv"]["op"].startswith("Sub") and is_const(d["rv"]["b"], 1)]
+        ctx.check(bool(cons), rule, "draw:consumes-one", a.name, K.fn_loc(a), "an admission consumes one token", "an admission does not consume a token", cfg)
+    b = K.find_one(ctx, crate, rule, r"state::AtomicPosition::new")
+    if b:
+        for (cb, i, j, s) in K.constructions(crate, "state::AtomicPosition", bodies=[b]):
+            f = dict(zip(s["rv"]["fields"], s["rv"]["ops"]))
+            sl = b.slice(f.get("capacity"), at=i)
+            n += 1
+            ctx.check(10 in sl.consts(), rule, "pos:initial-burst", b.name, "%s:%d" % (b.file, s.get("line", 0)), "a new position limiter starts with 10 tokens",
+                      "a new position limiter does not start with 10 tokens", cfg)
+    a = K.find_one(ctx, crate, rule, r"state::AtomicPosition::allow")
+    if a:
+        mins = a.calls(r"std::cmp::Ord::min")
+        n += 1
+        ok = bool(mins) and all(10 in {c for c in a.slice_args(m).consts() if isinstance(c, int) and not isinstance(c, bool)} for m in mins)
+        ctx.check(ok, rule, "pos:cap", a.name, K.fn_loc(a), "capacity is capped at 10", "the position bucket's cap is not 10", cfg)
+        ivals = set()
+        for i, j, s in a.assigns():
+            rv = s["rv"]
+            if rv["k"] == "bin" and rv["op"] in ("Div", "Rem", "Lt", "Ge") and isinstance(const_val(rv["b"]), int) and const_val(rv["b"]) > 1000:
+                ivals.add(const_val(rv["b"]))
+        ctx.check(ivals == {1000000}, rule, "pos:interval", a.name, K.fn_loc(a), "the position interval is 1 ms (1_000_000 ns) in the test, the division and the remainder",
+                  "the position limiter's interval constants are %s (expected 1_000_000 ns everywhere)" % sorted(ivals), cfg)
+        cons = [d for m in mins for d in a.slice_args(m).defs if d["kind"] == "assign" and d["rv"]["k"] == "bin" and d["rv"]["op"].startswith("Sub") and is_const(d["rv"]["b"], 1)]
+        ctx.check(bool(cons), rule, "pos:consumes-one", a.name, K.fn_loc(a), "an admission consumes one token", "an admission does not consume a token", cfg)
+    ctx.floor(rule, n, 4, cfg, "limiter constant sites")
+    # default targets use 20 Hz
+    for fn in ("draw_target::ProgressDrawTarget::stdout", "draw_target::ProgressDrawTarget::stderr"):
+        x = crate.body(fn)
+        if x:
+            cs = x.calls(r"draw_target::ProgressDrawTarget::term")
+            ctx.check(bool(cs) and all(is_const(c.args[1], 20) for c in cs), rule, "default-rate:%s" % K.meth(fn), fn, K.fn_loc(x), "default refresh rate is 20 Hz",
+                      "the default refresh rate is not 20 Hz", cfg)
